@@ -15,7 +15,8 @@ try:
     if p.returncode != 0:
         subprocess.run(['git', '-C', wt, 'apply', '--3way', os.path.join(src, 'patch.diff')], check=True)
         subprocess.run(['git', '-C', wt, 'reset', '-q'], check=True)
-    diff = subprocess.run(['git', '-C', wt, 'diff', '--binary'], capture_output=True, check=True).stdout
+    subprocess.run(['git', '-C', wt, 'add', '-A'], check=True)   # new files are part of the change
+    diff = subprocess.run(['git', '-C', wt, 'diff', '--cached', '--binary', 'HEAD'], capture_output=True, check=True).stdout
     open(os.path.join(dst, 'patch.diff'), 'wb').write(diff)
 finally:
     subprocess.run(['git', '-C', '/repo', 'worktree', 'remove', '--force', wt])
